@@ -116,8 +116,7 @@ Watch(cfg) ==
 
 Unwatch(w) ==
   /\ "unwatch" \in Acts /\ CanOp /\ w \in WIds /\ Alive(w)      \* (also from inside its own callback)
-  \* (which of two watchers with identical settings and callable is removed is not specified)
-  /\ \A w2 \in WIds \ {w} : Alive(w2) => [W[w2] EXCEPT !.alive = TRUE] # [W[w] EXCEPT !.alive = TRUE]
+  \* (the very watcher handed out by watch(), also when another one has identical settings and callable)
   /\ W' = [W EXCEPT ![w].alive = FALSE] /\ nops' = nops + 1
   /\ Vis([a |-> "unwatch", w |-> w, kf |-> {}])
   /\ UNCHANGED <<val, bw, trig, evq, wq, emode, stack, exc, nfaults>>
